@@ -32,6 +32,9 @@ pub enum SpanSpec {
     FullDay,
     /// event based start and end with concrete offsets in minutes (no-location events 06/07/19/20h)
     Event(TimeEvent, i16, TimeEvent, i16),
+    /// event based start whose offset is forked over every whole hour in -24:00..=+24:00 (the offset
+    /// field is an i16 of the AST, it cannot be symbolic), symbolic fixed end in 00:00..=48:00
+    EventFree(TimeEvent),
 }
 
 #[derive(Clone, Copy, Debug, PartialEq, Eq)]
@@ -342,6 +345,7 @@ pub fn build_rule(idx: usize, spec: &RuleSpec) -> (RuleSequence, RuleModel) {
     let kind = pick_kind(&format!("r{idx}kind"), spec.kind);
     let mut spans = vec![];
     let mut model_spans = vec![];
+    let mut event_offsets: Vec<i16> = vec![];
     for (j, sp) in spec.spans.iter().enumerate() {
         let (s, e): (SymInt, SymInt) = match sp {
             SpanSpec::Free => (vrt::fresh_int(&format!("r{idx}s{j}"), 0, DAY), vrt::fresh_int(&format!("r{idx}e{j}"), 0, 2 * DAY)),
@@ -363,9 +367,21 @@ pub fn build_rule(idx: usize, spec: &RuleSpec) -> (RuleSequence, RuleModel) {
                 (s, e)
             }
             SpanSpec::FullDay => (SymInt::Const(0), SymInt::Const(DAY)),
+            SpanSpec::EventFree(ev) => {
+                let k = vrt::fresh_int(&format!("r{idx}o{j}"), -24, 24);
+                let alts: Vec<vrt::SymBool> = (-24..=24).map(|v| k.eq(SymInt::Const(v))).collect();
+                let hours = vrt::decide_among(&alts) as i64 - 24;
+                event_offsets.push((60 * hours) as i16);
+                (SymInt::Const(event_minutes(*ev, (60 * hours) as i16)), vrt::fresh_int(&format!("r{idx}e{j}"), 0, 2 * DAY))
+            }
             SpanSpec::Event(ev1, o1, ev2, o2) => (SymInt::Const(event_minutes(*ev1, *o1)), SymInt::Const(event_minutes(*ev2, *o2))),
         };
         let span = match sp {
+            SpanSpec::EventFree(ev) => TimeSpan {
+                range: Time::Variable(VariableTime { event: *ev, offset: event_offsets.pop().unwrap() })..Time::Fixed(time_from(e)),
+                open_end: false,
+                repeats: None,
+            },
             SpanSpec::Event(ev1, o1, ev2, o2) => TimeSpan {
                 range: Time::Variable(VariableTime { event: *ev1, offset: *o1 })..Time::Variable(VariableTime { event: *ev2, offset: *o2 }),
                 open_end: false,
@@ -375,7 +391,9 @@ pub fn build_rule(idx: usize, spec: &RuleSpec) -> (RuleSequence, RuleModel) {
         };
         spans.push(span);
         // a span whose end is not after its start wraps to the next day
-        let e_eff = SymInt::ite(s.lt(e), e, e.add_const(DAY));
+        // (truncated to 48:00 and never before the start: only reachable when an event offset pushes
+        // the start past 24:00)
+        let e_eff = SymInt::ite(s.lt(e), e, s.max(e.add_const(DAY).min(SymInt::Const(2 * DAY))));
         model_spans.push((s, e_eff));
     }
     let comments: Vec<Arc<str>> = spec.comments.iter().map(|c| Arc::from(*c)).collect();
